@@ -1,8 +1,3 @@
-(* PARTIAL, NOT COMPILED (not a .v file): unfinished Tie of the generated lsolve (Gen/Core.v) against Model/LSolve.v.
-   Done: generic loop lemmas (loop_total / loop_partial), range lemmas, list facts, model step functions as partial
-   functions (rowf/stepo/backf + fold lemmas), and inside tie_lsolve the outer-loop agreement up to and including the
-   pivot search, both swaps and the singularity test.  Missing: elimination of the rows below (loop_partial with rowf,
-   inner row loop with emb r := list_upd A i r), back substitution (backf), final assembly. *)
 (* Tie/T20.v — lsolve GENERATED from platypus/_math.py (Gen/Core.v, regenerated from the source text on every run) is
    [lsolve] of Model/LSolve.v at exact rationals ([Qops] / lsolveQ), on well-formed systems: A has N rows of length
    N and N = len(b).  (Outside that, the code raises IndexError where the model reads a default.)
@@ -90,6 +85,18 @@ Proof.
     rewrite IH. replace (Nat.ltb (S i) (S (length l))) with (Nat.ltb i (length l)); [reflexivity|].
     destruct (Nat.ltb i (length l)) eqn:E; symmetry; [apply Nat.ltb_lt; apply Nat.ltb_lt in E; lia|apply Nat.ltb_ge; apply Nat.ltb_ge in E; lia].
 Qed.
+
+Lemma nth_upd_eq {X} (l : list X) (i : nat) (v d : X) : (i < length l)%nat -> nth i (list_upd l i v) d = v.
+Proof. intro H. rewrite nth_upd, Nat.eqb_refl. cbn [andb]. apply Nat.ltb_lt in H. now rewrite H. Qed.
+
+Lemma nth_upd_neq {X} (l : list X) (i j : nat) (v d : X) : i <> j -> nth j (list_upd l i v) d = nth j l d.
+Proof. intro H. rewrite nth_upd. apply Nat.eqb_neq in H. now rewrite H. Qed.
+
+Lemma list_upd_same {X} (l : list X) (i : nat) (d : X) : list_upd l i (nth i l d) = l.
+Proof. revert i. induction l as [|x l IH]; intros [|i]; cbn [list_upd nth]; try reflexivity. now rewrite IH. Qed.
+
+Lemma list_upd_twice {X} (l : list X) (i : nat) (v w : X) : list_upd (list_upd l i v) i w = list_upd l i w.
+Proof. revert i. induction l as [|x l IH]; intros [|i]; cbn [list_upd]; try reflexivity. now rewrite IH. Qed.
 
 (* well-formed: N rows of length N *)
 Definition wfA (N : nat) (A : list (list Q)) : Prop := length A = N /\ forall i, (i < N)%nat -> length (nth i A []) = N.
@@ -192,6 +199,103 @@ Proof.
     rewrite (idx A2 p []) by lia. cbn [PyCore.get]. rewrite (idx (nth p A2 []) p 0%Q) by (rewrite RA2; lia). cbn [PyCore.get].
     unfold LSolve.get, LSolve.row. cbn [n_le n_abs Qops].
     destruct (Qle_bool (Qabs (nth p (nth p A2 []) 0%Q)) eps); cbv iota; cbn [toopt]; [reflexivity|].
-    Show.
-    Show.
-    Show.
+    change (elim_rows Q 0%Q Qminus Qmult Qdiv Qeq0 N p A2 b2) with (elim_rowsQ N p A2 b2). rewrite elim_rows_fold.
+    (* elimination of the rows below the pivot *)
+    match goal with
+    | |- context [for_list ?rb (map Z.of_nat (seq (S p) (N - S p))) (A2, b2)] =>
+        pose proof (loop_partial (R := list (list Q) * list Q * list Q) (InvAB N) (fun s => s) (rowf N p) rb
+                                 (seq (S p) (N - S p)) (A2, b2)) as HR
+    end.
+    match type of HR with ?P -> _ => assert (HRp : P) end.
+    { clear HR. intros i [A3 b3] Hi [[LA3 RA3] Hb3]. cbn [fst snd] in *. apply in_seq in Hi.
+      unfold rowf.
+      rewrite (idx A3 i []) by lia. cbn [PyCore.get]. rewrite (idx (nth i A3 []) p 0%Q) by (rewrite RA3; lia). cbn [PyCore.get].
+      rewrite (idx A3 p []) by lia. cbn [PyCore.get]. rewrite (idx (nth p A3 []) p 0%Q) by (rewrite RA3; lia). cbn [PyCore.get].
+      unfold py_div, Qeq0, LSolve.get, LSolve.row. cbn [n_eq n_lit n_div n_sub n_mul Qops].
+      destruct (Qeq_bool (nth p (nth p A3 []) 0%Q) 0%Q); [reflexivity|]. cbn [PyCore.get]. cbv zeta.
+      set (alpha := (nth p (nth i A3 []) 0 / nth p (nth p A3 []) 0)%Q).
+      rewrite (idx b3 i 0%Q), (idx b3 p 0%Q) by lia. cbn [PyCore.get].
+      rewrite (py_set_nat b3 i) by lia. cbn [PyCore.get].
+      (* innermost loop: the row i, as a function of the row alone *)
+      set (rp := nth p A3 []).
+      match goal with
+      | |- context [for_list ?jb (map Z.of_nat (seq p (N - p))) A3] =>
+          destruct (loop_total (R := list (list Q) * list Q * list Q) (fun r : list Q => length r = N) (fun r => list_upd A3 i r)
+                      (fun r j => upd r j (Qminus (getQ r j) (Qmult alpha (getQ rp j))))
+                      jb (seq p (N - p)) (nth i A3 [])) as [Erow Hrow]
+      end.
+      { intros j r Hj Hr. apply in_seq in Hj.
+        rewrite (idx (list_upd A3 i r) i []) by (rewrite list_upd_length; lia). rewrite nth_upd_eq by lia. cbn [PyCore.get].
+        rewrite (idx r j 0%Q) by lia. cbn [PyCore.get].
+        rewrite (idx (list_upd A3 i r) p []) by (rewrite list_upd_length; lia). rewrite nth_upd_neq by lia. cbn [PyCore.get].
+        fold rp. rewrite (idx rp j 0%Q) by (unfold rp; rewrite RA3; lia). cbn [PyCore.get].
+        rewrite (py_set_nat r j) by lia. cbn [PyCore.get].
+        rewrite py_set_nat by (rewrite list_upd_length; lia). cbn [PyCore.get].
+        rewrite list_upd_twice. unfold LSolve.get. split; [reflexivity|]. rewrite upd_eq. now rewrite list_upd_length. }
+      { apply RA3. lia. }
+      rewrite list_upd_same in Erow. rewrite Erow. cbn [PyCore.bind].
+      change (fold_left _ (seq p (N - p)) (nth i A3 [])) with (row_elimQ N p alpha (nth i A3 []) rp) in *.
+      split; [reflexivity|]. rewrite !upd_eq.
+      split; cbn [fst snd]; [apply wf_upd; [split; assumption|exact Hrow]|now rewrite list_upd_length]. }
+    specialize (HR HRp (conj (conj LA2 RA2) Hb2)).
+    destruct (fold_left (ostep (rowf N p)) (seq (S p) (N - S p)) (Some (A2, b2))) as [[A4 b4]|]; cbn [toopt].
+    - destruct HR as [E I]. rewrite E. cbn [PyCore.bind]. split; [reflexivity|exact I].
+    - rewrite HR. reflexivity. }
+  specialize (HO Hprem HO'). clear Hprem.
+  cbv beta in HO.
+  unfold lsolveQ, lsolve, eliminate. cbv zeta. fold N.
+  change (fold_left (step Q 0%Q Qminus Qmult Qdiv Qabs Qgtb Qle_bool Qeq0 eps N) (seq 0 N) (Elim A b))
+    with (fold_left (stepQ eps N) (seq 0 N) (Elim A b)).
+  pose proof (eliminate_fold eps N (seq 0 N) (Elim A b)) as HE. cbn [toopt] in HE. rewrite <- HE in HO. clear HE.
+  destruct (fold_left (stepQ eps N) (seq 0 N) (Elim A b)) as [| |U c]; cbn [toopt] in HO;
+    [rewrite HO; reflexivity | rewrite HO; reflexivity |].
+  destruct HO as [EO [[LU RU] Hc]]. cbn [fst snd] in *. rewrite EO. cbn [PyCore.bind]. clear EO.
+  (* back substitution *)
+  unfold backsub. cbv zeta. rewrite Hc.
+  change (backsub_from Q 0%Q Qplus Qminus Qmult Qdiv Qeq0 N U c (repeat 0%Q N) N)
+    with (fold_left (back_stepQ N U c) (rev (seq 0 N)) (Some (repeat 0%Q N))).
+  rewrite backsub_fold.
+  unfold for_range_down, py_repeat. rewrite zrange_down_nat, Nat2Z.id. cbn [n_lit Qops].
+  match goal with
+  | |- context [for_list ?bb (map Z.of_nat (rev (seq 0 N))) (repeat 0%Q N)] =>
+      pose proof (loop_partial (R := list (list Q) * list Q * list Q) (fun x : list Q => length x = N) (fun x => x)
+                               (backf N U c) bb (rev (seq 0 N)) (repeat 0%Q N)) as HB
+  end.
+  match type of HB with ?P -> _ => assert (HBp : P) end.
+  { clear HB. intros i x Hi Hx. apply in_rev, in_seq in Hi. unfold backf.
+    zsucc. unfold for_range2. rewrite zrange2_nat.
+    match goal with
+    | |- context [for_list ?sb (map Z.of_nat (seq (S i) (N - S i))) 0%Q] =>
+        destruct (loop_total (R := list (list Q) * list Q * list Q) (fun _ : Q => True) (fun q => q)
+                    (fun s j => Qplus s (Qmult (getQ (rowQ U i) j) (getQ x j)))
+                    sb (seq (S i) (N - S i)) 0%Q) as [Esum _]
+    end.
+    { intros j s Hj _. apply in_seq in Hj.
+      rewrite (idx U i []) by lia. cbn [PyCore.get]. rewrite (idx (nth i U []) j 0%Q) by (rewrite RU; lia). cbn [PyCore.get].
+      rewrite (idx x j 0%Q) by lia. cbn [PyCore.get n_add n_mul Qops]. split; [reflexivity|exact I]. }
+    { exact I. }
+    rewrite Esum. cbn [PyCore.bind]. clear Esum.
+    change (fold_left _ (seq (S i) (N - S i)) 0%Q) with (back_sumQ N i (rowQ U i) x).
+    set (sm := back_sumQ N i (rowQ U i) x).
+    rewrite (idx c i 0%Q) by lia. cbn [PyCore.get].
+    rewrite (idx U i []) by lia. cbn [PyCore.get]. rewrite (idx (nth i U []) i 0%Q) by (rewrite RU; lia). cbn [PyCore.get].
+    unfold py_div, Qeq0, LSolve.get, LSolve.row. cbn [n_eq n_lit n_div n_sub Qops].
+    destruct (Qeq_bool (nth i (nth i U []) 0%Q) 0%Q); [reflexivity|]. cbn [PyCore.get].
+    rewrite (py_set_nat x i) by lia. cbn [PyCore.get].
+    split; [reflexivity|]. rewrite upd_eq. now rewrite list_upd_length. }
+  specialize (HB HBp (repeat_length 0%Q N)). clear HBp.
+  destruct (fold_left (ostep (backf N U c)) (rev (seq 0 N)) (Some (repeat 0%Q N))) as [x|].
+  - destruct HB as [EB _]. rewrite EB. cbn [PyCore.bind finish]. exists U, c. reflexivity.
+  - rewrite HB. reflexivity.
+Qed.
+
+(* the hypothesis is satisfiable, and the generated function computes on a concrete well-formed system *)
+Example wfA_identity : wfA 2 [[1; 0]; [0; 1]]%Q.
+Proof. split; [reflexivity|]. intros [|[|i]] H; try reflexivity. cbn in H. lia. Qed.
+
+Example generated_lsolve_runs :
+  match Core.lsolve Q Qops EPSILON_Q [[2; 0]; [0; 4]]%Q [2; 4]%Q with
+  | Some (_, _, x) => map Qred x = [1; 1]%Q
+  | None => False
+  end.
+Proof. vm_compute. reflexivity. Qed.
